@@ -114,17 +114,17 @@ class Resolver:
                                             out.append(Alt(r.expr, [(subst(t, m2), b) for t, b in rg] + r.guards))
                             if out:
                                 return out[: self.limit]
+            out = []
             for s, g in stmts:
                 if isinstance(s, ast.Assign) and len(s.targets) == 1 and isinstance(s.targets[0], ast.Tuple) and not isinstance(s.value, ast.Call) and expr.id not in _params(fn_node):
                     names = [t.id if isinstance(t, ast.Name) else None for t in s.targets[0].elts]
                     if expr.id in names:
                         pos = names.index(expr.id)
-                        out = []
                         for a in self.resolve(fn_node, s.value, mapping, depth + 1, scopes):
                             if isinstance(a.expr, ast.Tuple) and pos < len(a.expr.elts):
-                                out.append(Alt(a.expr.elts[pos], a.guards))
-                        if out:
-                            return out
+                                out.append(Alt(a.expr.elts[pos], [(subst(t, mapping), b) for t, b in g] + a.guards))
+            if out:
+                return out[: self.limit]
             defs = [(s, g) for s, g in stmts if isinstance(s, ast.Assign) and any(isinstance(t, ast.Name) and t.id == expr.id for t in s.targets)]
             if defs and expr.id not in _params(fn_node):
                 out = []
